@@ -76,6 +76,76 @@ def ledger_trace(recs):
     return [{"e": "cfg", "nbuf": nb + 1}] + ev
 
 
+def quota_part(c, tier, rng, rd):
+    """Launch side: division of the requested packets over the entries of real DistributedPhotonSource objects and their
+    concurrent drain, against spec/PhotonQuota.tla."""
+    qexe = vlib.build_harness("quota_harness")
+    # the drain as a state machine (all interleavings of two / three threads on small totals)
+    for k, (nt, calls) in enumerate([(2, 4)] if tier == "quick" else [(2, 5), (3, 3)]):
+        cfg = os.path.join(rd, "pq_%d.cfg" % k)
+        open(cfg, "w").write("CONSTANTS MaxBatch = 2 NThreads = %d MaxCalls = %d\nTotals <- MC_Totals\nSPECIFICATION Spec\n"
+                             "INVARIANTS NeverTooMany BatchesBounded ZeroOnlyWhenDrained OneShortBatch\nCHECK_DEADLOCK FALSE\n" % (nt, calls))
+        r = vlib.tlc_model("MC_PhotonQuota.tla", cfg, rd, workers=4, timeout=1800, tag="pq_%d" % k, must_take=("Take", "Unlock", "Check"))
+        c.add_model("PhotonQuota drain", r, "totals <<3, 2>>, batches of 2, %d threads, %d calls each" % (nt, calls))
+    cases = []
+    layouts = [(1, 1, 1), (2, 1, 1), (2, 2, 1), (3, 2, 1), (2, 2, 2)]
+    for i in range(30 if tier == "quick" else 400):
+        S = rng.choice(layouts)
+        nsub = S[0] * S[1] * S[2]
+        nsrc = rng.choice([1, 1, 2, 3, 5])
+        W = rng.choice([4, 16, 64])
+        if nsrc > W:
+            continue
+        cuts = sorted(rng.sample(range(1, W), nsrc - 1)) if nsrc > 1 else []
+        ws = [b - a for a, b in zip([0] + cuts, cuts + [W])]
+        subs = [rng.randrange(nsub) for _ in range(nsrc)]
+        if len(set(subs)) < nsrc:
+            continue              # one source per subgrid keeps the entry table of the harness simple
+        levels = [rng.choice([0, 0, 1, 2, 3]) for _ in range(nsub)]
+        N = rng.choice([999, 1000, 7777, 10007, 20001, 100003, rng.randint(50, 100000)])
+        cases.append(dict(N=N, S=S, ws=ws, subs=subs, levels=levels, cs=[2 ** levels[s] for s in subs],
+                          max=rng.choice([1, 7, 100, 200, 1000]), nthr=rng.choice([1, 2, 4, 8])))
+        if cases[-1]["max"] * 4000 < N:
+            cases[-1]["max"] = 200
+    fin, fout = os.path.join(rd, "quota.txt"), os.path.join(rd, "quota.ndjson")
+    with open(fin, "w") as fh:
+        for cs in cases:
+            fh.write("%d %d %d %d %d %d %d %s %s\n" % (cs["N"], cs["S"][0], cs["S"][1], cs["S"][2], cs["max"], cs["nthr"], len(cs["ws"]),
+                                                    " ".join("%d %d" % (w, s) for w, s in zip(cs["ws"], cs["subs"])),
+                                                    " ".join(map(str, cs["levels"]))))
+    rc, o = vlib.sh("%s %s %s 2>&1" % (qexe, fin, fout), timeout=900)
+    got = vlib.read_ndjson(fout) if os.path.exists(fout) else []
+    if rc != 0 or len(got) != len(cases):
+        c.violation("quota:abort", "DistributedPhotonSource harness failed on case %s (rc=%d): %s" % (
+            cases[len(got)] if len(got) < len(cases) else "?", rc, o[-300:]), {"cases": cases[:5]})
+        return
+    fj = os.path.join(rd, "quota_cases.json")
+    json.dump([dict(N=cs["N"], ws=cs["ws"], cs=cs["cs"], tot=g["tot"], max=cs["max"], batches=g["batches"]) for cs, g in zip(cases, got)],
+              open(fj, "w"))
+    cfg = os.path.join(rd, "pq_eval.cfg")
+    open(cfg, "w").write("CONSTANTS MaxBatch = 2 NThreads = 1 MaxCalls = 0\nTotals <- MC_Totals\nSPECIFICATION Spec\nCHECK_DEADLOCK FALSE\n")
+    r = vlib.tlc("MC_PhotonQuota.tla", cfg, rd, workers=1, timeout=1800, tag="pq_eval", env={"CASES": fj}, xss="512m")
+    m = re.search(r'<<\s*"QUOTA",\s*"(.*?)"\s*>>', r.out, re.S)
+    if r.rc != 0 or not m:
+        raise vlib.Inconclusive("MC_PhotonQuota evaluation failed:\n" + r.out[-2000:])
+    c.add_model("PhotonQuota (division and ledgers of real sources)", r, "%d sources" % len(cases))
+    for cs, g, v in zip(cases, got, json.loads(m.group(1).replace('\\"', '"'))):
+        c.add_case(("quota", cs["N"], tuple(cs["ws"]), tuple(cs["cs"]), cs["max"], cs["nthr"]), nontrivial=len(cs["ws"]) > 1 or max(cs["cs"]) > 1)
+        nb_ok = all(nb == (t + cs["max"] - 1) // cs["max"] for nb, t in zip(g["nbatch"], g["tot"]))
+        if not v["totals"]:
+            c.violation("quota:division:copies=%s" % ("yes" if max(cs["cs"]) > 1 else "no"),
+                        "%d packets over weights %s with %s entries per source are divided as %s (sum %d): not the shares of "
+                        "PhotonQuota!ValidTotals" % (cs["N"], cs["ws"], cs["cs"], g["tot"], sum(g["tot"])), {"case": cs, "code": g})
+        elif not v["ledger"] or not nb_ok:
+            c.violation("quota:drain:threads=%d" % cs["nthr"],
+                        "concurrent drain of %s entries with batches of %d: the batches handed out do not add up to the totals %s "
+                        "(or more than one short batch / wrong number of batches %s)" % (len(g["tot"]), cs["max"], g["tot"], g["nbatch"]),
+                        {"case": cs, "code": {k: g[k] for k in ("tot", "nbatch")}})
+        else:
+            c.cov["traces_validated_against_impl"] += 1
+    vlib.log("launch side: %d DistributedPhotonSource objects (division + concurrent drain) checked against PhotonQuota" % len(cases))
+
+
 def run(c):
     tier = c.tier
     rng = random.Random(c.seed)
@@ -209,6 +279,7 @@ def run(c):
         if not st.startswith("violated:"):
             raise vlib.Inconclusive("self-test failed: lost packet gave %s" % st)
         c.cov["selftest"] = "trace with one unaccounted packet rejected (%s)" % st
+    quota_part(c, tier, rng, rd)
     c.cov["rule"] = ("configurations from Configs_C01 (source mix x diffuse x layout x periodicity x copy level x threads x "
                      "packet count); non-trivial = several threads or diffuse field or a continuous source")
     c.cov["exhaustive"] = False
@@ -217,7 +288,12 @@ def run(c):
                       "trackers and the RHD variant of the loop are not exercised by this check"]
 
 
+def build_quota():
+    vlib.build_harness("quota_harness")
+
+
 def build():
+    build_quota()
     hydrolib.driver()
 
 
